@@ -105,7 +105,7 @@ def register(check, TIERB_NOTE):
           "and map orders, and every generation must equal what the same configuration produces as the only generation of a fresh process; a failing "
           "sequence is shortened while the same class of deviation persists; all results of a sequence are kept and rendered again at its end (a result that then reads differently "
           "aliases memory a later generation reused). The canonical plan is executed twice (identical plan, identical bytes). Every deviation is re-executed with the identical plan before it is reported. "
-          "Environment faults, once per tool: generation into an output directory pre-filled with longer files of the same names, and generation by a copy of the binary at another location; both must leave the reference bytes.",
+          "Environment faults, once per combination: generation into an output directory pre-filled with longer files of the same names, and generation by a copy of the binary at another location; both must leave the reference bytes.",
           "DESIGN.md §5 (C25)",
           "Sampling of permutations and of the flag lattice; the only sources of nondeterminism in these packages are map iteration order and process state "
           "(no goroutines, no clock), both of which the simulator controls. Trusted: the instrumenter's rewrite (every order it produces is one the Go "
